@@ -37,10 +37,14 @@ def extract_str_template(src, rep):
     rels = ListOf(('shape', ('list+', dep), 'rels[]'), 'rels')
     rels.nonempty = True
 
+    # loops over literal tables of (key, render function) pairs are unrolled, the functions applied in place
+    from .. import normalize
+    fbody = normalize.unroll_const_loops(f.node).body
+
     def run(dec):
         it = strlang.Interp(dec, cls='PkgRelation', depth=6)
         env = {pname: rels}
-        r = it.run(f.node.body, env)
+        r = it.run(fbody, env)
         if r is None or r[0] != 'return':
             raise AnalysisError('%s: no return' % f.site)
         return r[1], it
